@@ -18,8 +18,11 @@ TU = 65536
 MODE = os.environ.get('VERIF_MODE', 'nrt')
 
 
-def E(k, r='', n=0, secs=0, beats=0, tag='', sk='', stamp=0, subk='-', sub=0):
-    return dict(k=k, r=r, n=n, secs=secs, beats=beats, tag=tag, sk=sk, stamp=stamp, subk=subk, sub=sub)
+def E(k, r='', n=0, secs=0, beats=0, tag='', sk='', stamp=0, subk='-', sub=0, sub2=0):
+    return dict(k=k, r=r, n=n, secs=secs, beats=beats, tag=tag, sk=sk, stamp=stamp, subk=subk, sub=sub, sub2=sub2)
+
+
+D3 = TU // 4       # nk = 3: a bundle nested in the nested bundle, a quarter second after it
 
 
 def exact(x, what):
@@ -98,6 +101,7 @@ class Runner:
         self.in_func = None
         self.yr_done = set()
         self.elems = {}
+        self.nested = {}
         self.conds = {}
         self.addr = addr
         seeds = [i['a'] for body in prog['routines'].values() for i in body if i['op'] in ('K', 'KC')]
@@ -176,7 +180,19 @@ class Runner:
         # user code often keeps a message / bundle list and sends it again: the element lists are built once
         # per tag and the SAME objects are passed on every send of that tag
         if tag not in self.elems:
-            self.elems[tag] = [[tag, 1]] if i['nk'] == 0 else [[tag, 1], [None if i['nk'] == 2 else i['na'] / TU, [tag, 2]]]
+            if i['nk'] == 0:
+                self.elems[tag] = [[tag, 1]]
+            else:
+                # ... and the nested bundle lists are shared by ALL sends with the same nested latencies
+                key = (i['nk'], i['na'])
+                if key not in self.nested:
+                    nb = [None if i['nk'] == 2 else i['na'] / TU, ['/n', 2]]
+                    if i['nk'] == 3:
+                        nb.append([(i['na'] + D3) / TU, ['/n', 3]])
+                    elif i['nk'] == 4:      # precedes its parent: the whole bundle must be refused
+                        nb.append([(i['na'] - D3) / TU, ['/n', 3]])
+                    self.nested[key] = nb
+                self.elems[tag] = [[tag, 1], self.nested[key]]
         try:
             self.addr.send_bundle(lat, *self.elems[tag])
         except ValueError:
@@ -255,10 +271,12 @@ class Runner:
 def score_rows(lst):
     rows = []
     for b in lst:
-        row = dict(time=exact(b[0], 'score time'), tag=b[1][0], subk='-', sub=0)
+        row = dict(time=exact(b[0], 'score time'), tag=b[1][0], subk='-', sub=0, sub2=0)
         if len(b) > 2:
             row['subk'] = 't'
             row['sub'] = exact(b[2][0], 'score subtime')
+            if len(b[2]) > 2:
+                row['sub2'] = exact(b[2][2][0], 'score subtime')
         rows.append(row)
     return rows
 
@@ -331,10 +349,13 @@ def parse_raw(raw):
                 return rows, False
             tag, els = rd_bundle(raw[i:i + n])
             i += n
-            row = dict(time=tag2units(tag, 0), tag=els[0][1][0], subk='-', sub=0)
+            row = dict(time=tag2units(tag, 0), tag=els[0][1][0], subk='-', sub=0, sub2=0)
             if len(els) > 1 and els[1][0] == 'b':
                 row['subk'] = 't'
                 row['sub'] = tag2units(els[1][1][0], 0)
+                e2 = els[1][1][1]
+                if len(e2) > 1 and e2[1][0] == 'b':
+                    row['sub2'] = tag2units(e2[1][1][0], 0)
             rows.append(row)
     except (ValueError, IndexError, struct.error):
         return rows, False
@@ -386,15 +407,18 @@ def run_rt(S, prog):
         if d[:8] == b'#bundle\0':
             tag, els = rd_bundle(d)
             sk, stamp = ('i', 0) if tag == 1 else ('t', tag2units(tag - offset, 0) - base_units)
-            subk, sub = '-', 0
+            subk, sub, sub2 = '-', 0, 0
             if len(els) > 1 and els[1][0] == 'b':
                 t2 = els[1][1][0]
                 subk, sub = ('i', 0) if t2 == 1 else ('t', tag2units(t2 - offset, 0) - base_units)
+                e2 = els[1][1][1]
+                if len(e2) > 1 and e2[1][0] == 'b':
+                    sub2 = tag2units(e2[1][1][0] - offset, 0) - base_units
             who = R.cur()
             if who == 'user':
                 R.ev.append(E('ubndl', r=who, tag=els[0][1][0], sk=sk, stamp=stamp, secs=R.user_now))
             else:
-                R.ev.append(E('bndl', r=who, tag=els[0][1][0], sk=sk, stamp=stamp, subk=subk, sub=sub))
+                R.ev.append(E('bndl', r=who, tag=els[0][1][0], sk=sk, stamp=stamp, subk=subk, sub=sub, sub2=sub2))
         else:
             a, args = rd_msg(d)
             subk, sub = '-', 0
